@@ -202,6 +202,10 @@ def gen_field(rng, tier, nv=None, data=None, cubic=False, nmax=None, big=None, d
     unsigned = dtype.startswith("uint")
     data = data or rng.choice(["uniform", "linear", "random", "random"] + (["linear"] * 3 if integral else []))
     vs = rng.choice([1, 1, 1, 1000000, F(1, 1024)]) if dtype == "float64" else 1
+    if dtype == "float64" and rng.random() < 0.35:
+        # value magnitudes 2^-200 .. 2^300 (exact powers of two: the data stay exactly representable)
+        k2 = rng.randint(-200, -20) if rng.random() < 0.5 else rng.randint(-20, 300)
+        vs = F(2) ** k2
     lo_i = 0 if unsigned else -1
     coef = None
     if data == "uniform":
@@ -230,7 +234,13 @@ def gen_field(rng, tier, nv=None, data=None, cubic=False, nmax=None, big=None, d
     if rng.random() < 0.25:
         dims = rng.choice([["a", "b", "c"], ["u", "v", "w"], ["z", "y", "x"]])
     bc = rng.choice(["", "", "", "0", "01", "012", "neumann"])
-    return dict(n=n, cell=[g.qs(c * sc) for c in cell], p1=[g.qs(x * sc) for x in p1], nv=nv, data=data,
+    # explicit validity mask (the values of the cells flagged invalid stay what they are - mostly non-zero)
+    valid = None
+    if rng.random() < 0.35:
+        valid = [rng.random() < 0.6 for _ in range(math.prod(n))]
+        if all(valid):
+            valid[rng.randrange(len(valid))] = False
+    return dict(valid=valid, n=n, cell=[g.qs(c * sc) for c in cell], p1=[g.qs(x * sc) for x in p1], nv=nv, data=data,
                 vals=[g.qs(x) for x in vals], vmap=vmap, vdims=vdims, dims=dims, bc=bc, dtype=dtype,
                 dtype_explicit=rng.random() < 0.7, coef=[[g.qs(x * vs) for x in c] for c in coef] if coef else None)
 
@@ -260,6 +270,8 @@ def build(fc):
         if fc.get("vmap") is not None:
             names = vdims or ["x", "y", "z"]
             kw["vdim_mapping"] = {names[c]: dims[a] for c, a in enumerate(fc["vmap"])}
+    if fc.get("valid") is not None:
+        kw["valid"] = np.array(fc["valid"], dtype=bool).reshape(*n)
     return df.Field(mesh, nvdim=fc["nv"], value=arr, **kw)
 
 
@@ -499,10 +511,22 @@ def run_rot(c):
     since_clear = 0
     last_n = None
     nbad = 0
+
+    def snapshot():
+        return (f.array.tobytes(), str(f.array.dtype), np.asarray(f.valid).tobytes(),
+                f.array.__array_interface__["data"][0])
+
+    snap0 = snapshot()
     try:
         for o in c["ops"]:
+            if snapshot() != snap0:
+                # the operand (array bytes, validity, buffer identity) must survive every rotate / clear
+                rec["oracle"].append("original-field-modified")
             if o["op"] == "clear":
                 rot.clear_rotation()
+                if not (rot.field is f or np.asarray(rot.field.array).tobytes() == snap0[0]) \
+                        or np.asarray(rot.field.array).tobytes() != snap0[0]:
+                    rec["oracle"].append("clear-does-not-restore-original")
                 Racc = np.eye(3)
                 since_clear = 0
                 mats.append(None)
@@ -565,7 +589,7 @@ def run_rot(c):
                     or np.abs(ra - oarr).max() > 1e-12 * max(float(np.abs(ra).max()), 1e-300)):
                 rec["oracle"].append("refused-rotation-changed-state")
     rec["nbad"] = nbad
-    if not np.array_equal(f.array, before):
+    if not np.array_equal(f.array, before) or snapshot() != snap0:
         rec["oracle"].append("original-field-modified")
     if since_clear == 0:
         if not (out is f or (out == f and out.mesh == f.mesh)) or not np.array_equal(out.array, before):
@@ -661,7 +685,7 @@ def run_rot(c):
                       f"{g.lst(ops_coq)} {qn3(on)} {qv(opmin)} {qv(opmax)} {g.ql(oarr.reshape(-1))}")
     methods = tuple(o.get("method", "bad:" + o["why"] if o["op"] == "bad" else "clear") for o in c["ops"])
     rec.update(obs=obs, size=len(fc["vals"]) * 10 + len(c["ops"]),
-               key=f"{c['kind']}/{nv}/{fc['data']}/{methods}/{tuple(perm)}/{tuple(n)}/{last_n is not None}/{c.get('sp')}/{before.dtype}",
+               key=f"{c['kind']}/{nv}/{fc['data']}/{methods}/{tuple(perm)}/{tuple(n)}/{last_n is not None}/{c.get('sp')}/{before.dtype}/{fc.get('valid') is not None}/{int(math.log2(vscale)) // 50 if vscale > 0 else 'z'}",
                nontrivial=True)
     rec["oracle"] = sorted(set(rec["oracle"]))
     return rec
@@ -799,6 +823,9 @@ def stats(records):
             out.setdefault("complex", []).append(r.get("obs"))
             continue
         out["rot_cases"] += 1
+        out["masked_fields"] = out.get("masked_fields", 0) + int(c["field"].get("valid") is not None)
+        mag = max((abs(F(x)) for x in c["field"]["vals"]), default=F(0))
+        out["tiny_or_huge_values"] = out.get("tiny_or_huge_values", 0) + int(mag != 0 and (mag < F(1, 2 ** 40) or mag > 2 ** 60))
         out["refused_calls"] = out.get("refused_calls", 0) + r.get("nbad", 0)
         dts = out.setdefault("dtypes", {})
         dts[c["field"].get("dtype", "float64")] = dts.get(c["field"].get("dtype", "float64"), 0) + 1
